@@ -25,19 +25,23 @@ from harness import webstatic_driver as W
 
 def observe(cfg, act, args):
     if act == "dispatch":
-        return W.routing_dispatch(cfg["rules"], args[0], args[1])
-    return W.routing_reverse(cfg["rules"], args[0], args[1], args[2])
+        return W.routing_dispatch(cfg["rules"], args[0], args[1], cfg.get("dh", "none"))
+    return W.routing_reverse(cfg["rules"], args[0], args[1], args[2], cfg.get("dh", "none"))
 
 
 def _shape(rules):
     return "+".join(e["k"] for e in rules)
 
 
+def _shape_cfg(cfg):
+    return _shape(cfg["rules"]) + ("/dh" if cfg.get("dh", "none") != "none" else "")
+
+
 def _sig(cfg, s, obs):
     if s["act"] == "dispatch":
-        return {"act": "dispatch", "shape": _shape(cfg["rules"]), "exp_rule": s["exp"]["rule"], "obs_rule": obs["rule"],
+        return {"act": "dispatch", "shape": _shape_cfg(cfg), "exp_rule": s["exp"]["rule"], "obs_rule": obs["rule"],
                 "args_differ": obs["args"] != s["exp"]["args"], "named": s["exp"]["named"]}
-    return {"act": "reverse", "shape": _shape(cfg["rules"]), "obs_exc": isinstance(obs["url"], str)}
+    return {"act": "reverse", "shape": _shape_cfg(cfg), "obs_exc": isinstance(obs["url"], str)}
 
 
 def replayer(extra, path):
@@ -53,7 +57,7 @@ MENU = [["s", "a"], ["s", "Gns"], ["s", "Gany"], ["s", "a", "s", "Gdig"], ["s", 
         ["s", "a", "dot", "Gns"], ["s", "Nns", "s", "Nany"], ["s", "Gdig", "Gany"], ["s", "a", "s"], ["s", "Gany", "s", "Gany"],
         ["s", "Gns", "dot", "Gns"], ["s", "1", "Gany", "a"], ["s", "Ndig", "s", "Nns", "s", "Nany"], ["s", "Gany", "a", "Gany"]]
 PIECES = ["/", "a", "1", ".", "%41", "%2F", "%2f", "A", "12", "%4", "a.a", "%C3%A9"[:0] + "%7E", "+", "~"]
-HOSTS = ["a.com", "a.com:8080", "A.COM", "xa.com", "b.com", "a.com.b.com"]
+HOSTS = ["a.com", "a.com:8080", "A.COM", "xa.com", "b.com", "a.com.b.com", "a.com.evil.net"]
 ARGS = ["a", "1", "a1", "A", "", "a/1", "%41", "a +", "?#", "..", "12", "x~y_z-", "a&b=c"]
 
 
@@ -62,34 +66,35 @@ def random_trace(a):
     rng = random.Random(seed)
     rules = []
     for _ in range(rng.choice([1, 2, 2, 3, 3])):
-        k = rng.choice(["path", "path", "path", "host", "nest"])
+        k = rng.choice(["path", "path", "path", "host", "nest", "addh"])
         if k == "path":
             rules.append({"k": "path", "h": "", "p": rng.choice(MENU), "sub": []})
-        elif k == "host":
-            rules.append({"k": "host", "h": rng.choice(["h_a", "h_any"]), "p": [], "sub": [rng.choice(MENU) for _i in range(rng.choice([1, 2]))]})
+        elif k in ("host", "addh"):
+            rules.append({"k": k, "h": rng.choice(["h_a", "h_any"]), "p": [], "sub": [rng.choice(MENU) for _i in range(rng.choice([1, 2]))]})
         else:
             rules.append({"k": "nest", "h": "", "p": rng.choice([["s", "Gany"], ["s", "a", "Gany"], ["s", "Gns", "s", "Gany"]]),
                           "sub": [rng.choice(MENU) for _i in range(rng.choice([1, 2]))]})
-    cfg = {"rules": rules}
+    dh = rng.choice(["none", "none", "a.com", "b.com"]) if any(e["k"] == "addh" for e in rules) else "none"
+    cfg = {"rules": rules, "dh": dh}
     ev = []
     named = [(i, j, p) for i, e in enumerate(rules, 1) for j, p in ([(0, e["p"])] if e["k"] == "path" else list(enumerate(e["sub"], 1)))]
     for _ in range(length):
         if rng.random() < 0.75:
             text = "/" + "".join(rng.choice(PIECES) for _i in range(rng.choice([0, 1, 2, 3, 4, 5, 6])))
             args = [rng.choice(HOSTS), W.chars(text)]
-            ev.append({"a": "dispatch", "args": args, "obs": W.routing_dispatch_http(rules, args[0], args[1])})
+            ev.append({"a": "dispatch", "args": args, "obs": W.routing_dispatch_http(rules, args[0], args[1], dh)})
         else:
             i, j, p = rng.choice(named)
             ng = sum(1 for e in p if e[0] in "GN")
             args = [i, j, [W.chars(rng.choice(ARGS)) for _i in range(ng)]]
-            ev.append({"a": "reverse", "args": args, "obs": W.routing_reverse(rules, i, j, args[2])})
+            ev.append({"a": "reverse", "args": args, "obs": W.routing_reverse(rules, i, j, args[2], dh)})
     return {"id": tid, "cfg": cfg, "ev": ev}
 
 
 def _trace_sig(t, bad, l):
     if not bad:
         return {}
-    return {"shape": _shape(t["cfg"]["rules"]), "obs_rule": bad["obs"].get("rule"), "obs_exc": isinstance(bad["obs"].get("url"), str)}
+    return {"shape": _shape_cfg(t["cfg"]), "obs_rule": bad["obs"].get("rule"), "obs_exc": isinstance(bad["obs"].get("url"), str)}
 
 
 def run(ctx):
@@ -105,7 +110,8 @@ def run(ctx):
     # (B) host rules and nested routers
     paths += W.mc_states(ctx, "webstatic", "Routing", "MC_Routing.cfg",
                          overrides={"Mode": "struct", "MaxRules": ctx.pick(1, 2), "Pats": {"p_a", "p_ns", "p_adig"}, "HostPats": {"h_a", "h_any"},
-                                    "Hosts": {"a.com", "b.com", "xa.com", "a.com:8080", "A.COM", "a.com.b.com"}, "PathLen": 2,
+                                    "Hosts": {"a.com", "b.com", "xa.com", "a.com:8080", "A.COM", "a.com.evil.net"}, "PathLen": 2,
+                                    "DefaultHosts": {"none", "a.com", "b.com"},
                                     "PathToks": {"s", "a", "1", "pS"}, "ArgNames": {"a", "1"}},
                          required_actions=["dispatch", "reverse"], timeout=ctx.pick(900, 1500))
     # (C) single rules from the pattern generator
